@@ -66,6 +66,7 @@ func main() {
 		phases[name] = time.Since(t).Milliseconds()
 	}
 	phase("strings", func() { runStrings(rng) })
+	phase("synthetic-nets+constructors", func() { runSyntheticNets(rng); runConstructors(rng) })
 	phase("json", func() { runJSON(rng) })
 	phase("wire", func() { runWire(rng) })
 	phase("gcs", runGCS)
